@@ -8,7 +8,7 @@ import warnings
 import numpy as np
 
 from . import interp, probes
-from .common import digest
+from .common import scribble, digest
 
 chi = probes.chi
 
@@ -32,6 +32,7 @@ def replay_case(arg):
         cnt['extreme_magnitude_or_long'] = 1
         n = 300 if mag.startswith('long') else 3
     em = probes.error_model(kind)
+    scribble(em)
     for rep in range(reps):
         par = []
         for s in rec['scalesign']:
